@@ -171,6 +171,10 @@ def order_case(draw):
             n = draw(st.one_of(st.integers(top // 2, top), st.integers(0, top), st.sampled_from([s for s in tab if s <= top][-40:])))
             n = min(top, max(0, n + draw(st.sampled_from([0, 0, 1, -1]))))
         calls.append([draw(st.sampled_from(["next", "prev", "prev", "both"])), n, kind])
+        if kind == "int" and n > 10 and draw(st.integers(0, 2)) == 0:
+            # ... directly followed by a call at one of the answers just given (or right next to it)
+            m = draw(st.sampled_from([O.prev_smooth(n), O.next_smooth(n)])) + draw(st.sampled_from([0, 0, 1, -1]))
+            calls.append([draw(st.sampled_from(["next", "prev", "both"])), min(2**62 - 1, max(0, m)), "int"])
     return {"calls": calls}
 
 
